@@ -43,6 +43,9 @@ type CallsiteC struct {
 	Before []GhostAssign
 	After  []GhostAssign
 	Ignore string // noswallow: reason the error result is deliberately ignored
+	// Preserves: expressions (maps: with their contents) assumed unchanged by
+	// the call - an explicit frame assumption, reported in the evidence
+	Preserves []GhostAssign
 }
 
 type GhostAssign struct {
@@ -52,21 +55,22 @@ type GhostAssign struct {
 }
 
 type FuncC struct {
-	Ref         string // as written
-	Kind        string // func extern funcfield
-	Requires    []*Clause
-	Ensures     []*Clause
-	Pure        bool
-	HasModifies bool
-	Modifies    []string
-	Loops       map[int]*LoopC
-	Callsites   []*CallsiteC
-	NoSwallow   bool
-	Ghosts      []GhostDecl
-	Abstracts   []string
-	MayPanic    bool // explicit panic instructions allowed (documented API panics)
-	File        string
-	Line        int
+	Ref           string // as written
+	Kind          string // func extern funcfield
+	Requires      []*Clause
+	Ensures       []*Clause
+	Pure          bool
+	HasModifies   bool
+	Modifies      []string
+	Loops         map[int]*LoopC
+	Callsites     []*CallsiteC
+	NoSwallow     bool
+	NoSwallowTags []string
+	Ghosts        []GhostDecl
+	Abstracts     []string
+	MayPanic      bool // explicit panic instructions allowed (documented API panics)
+	File          string
+	Line          int
 }
 
 type GhostDecl struct {
@@ -133,8 +137,8 @@ var clauseRe = regexp.MustCompile(`^(requires|ensures|defines|invariant|decrease
 var specRe = regexp.MustCompile(`^spec\s+([A-Za-z_][A-Za-z0-9_]*)\s*\(([^)]*)\)\s*([^=]+?)\s*(=\s*(.*))?$`)
 var lemmaRe = regexp.MustCompile(`^lemma(\[[A-Za-z0-9,]+\])?\s+([A-Za-z_][A-Za-z0-9_]*)\s*\(([^)]*)\)\s*(induct\s+([A-Za-z_][A-Za-z0-9_]*))?\s*$`)
 
-var topKeywords = []string{"typeinv ", "assume-typeinv ", "spec ", "axiom ", "lemma ", "lemma[", "func ", "extern ", "funcfield ", "nopanic "}
-var subKeywords = []string{"requires", "ensures", "defines", "invariant", "decreases", "assert", "assume", "panics", "modifies", "pure", "loop ", "callsite ", "noswallow", "ghost ", "abstracts ", "maypanic", "before:", "after:", "uses ", "ignore ", "pattern "}
+var topKeywords = []string{"typeinv ", "assume-typeinv ", "spec ", "axiom ", "lemma ", "lemma[", "func ", "extern ", "funcfield ", "functype ", "nopanic "}
+var subKeywords = []string{"requires", "ensures", "defines", "invariant", "decreases", "assert", "assume", "panics", "modifies", "pure", "loop ", "callsite ", "noswallow", "ghost ", "abstracts ", "maypanic", "before:", "after:", "uses ", "ignore ", "pattern ", "preserves "}
 
 func startsWithAny(s string, ks []string) bool {
 	for _, k := range ks {
@@ -284,7 +288,7 @@ func ParseContractFile(path string) (*CFile, error) {
 			curL = &LemmaC{Name: m[2], Tags: parseTags(m[1]), Params: ps, Induct: m[5], File: path, Line: l.no}
 			cf.Lemmas = append(cf.Lemmas, curL)
 			curF, curLoop, curCS = nil, nil, nil
-		case strings.HasPrefix(t, "func "), strings.HasPrefix(t, "extern "), strings.HasPrefix(t, "funcfield "):
+		case strings.HasPrefix(t, "func "), strings.HasPrefix(t, "extern "), strings.HasPrefix(t, "funcfield "), strings.HasPrefix(t, "functype "):
 			i := strings.Index(t, " ")
 			curF = &FuncC{Kind: t[:i], Ref: strings.TrimSpace(t[i+1:]), Loops: map[int]*LoopC{}, File: path, Line: l.no}
 			cf.Funcs = append(cf.Funcs, curF)
@@ -314,11 +318,12 @@ func ParseContractFile(path string) (*CFile, error) {
 				return nil, errf(l, "pure outside func")
 			}
 			curF.Pure = true
-		case t == "noswallow":
+		case t == "noswallow" || strings.HasPrefix(t, "noswallow["):
 			if curF == nil {
 				return nil, errf(l, "noswallow outside func")
 			}
 			curF.NoSwallow = true
+			curF.NoSwallowTags = parseTags(strings.TrimPrefix(t, "noswallow"))
 		case t == "maypanic":
 			if curF == nil {
 				return nil, errf(l, "maypanic outside func")
@@ -413,6 +418,17 @@ func ParseContractFile(path string) (*CFile, error) {
 				curCS.Before = append(curCS.Before, ga)
 			} else {
 				curCS.After = append(curCS.After, ga)
+			}
+		case strings.HasPrefix(t, "preserves "):
+			if curCS == nil {
+				return nil, errf(l, "preserves outside callsite")
+			}
+			for _, part := range splitTop(strings.TrimPrefix(t, "preserves ")) {
+				e, err := ParseCExpr(part)
+				if err != nil {
+					return nil, errf(l, "%v", err)
+				}
+				curCS.Preserves = append(curCS.Preserves, GhostAssign{Text: normText(part), Expr: e})
 			}
 		case strings.HasPrefix(t, "ignore "):
 			if curCS == nil {
